@@ -1,6 +1,7 @@
 package main
 
 import (
+	"go/ast"
 	"fmt"
 	"go/token"
 	"sort"
@@ -84,6 +85,31 @@ func (c *Ctx) sigTables() {
 		return
 	}
 	sws := SwitchesOn(fp, fd.Body, "algo")
+	retStyle := false
+	if len(sws) == 0 {
+		// the switch may have moved into an unexported helper that is handed algo and returns (hash, error)
+		if fn := w.Fn(fnCSFK); fn != nil {
+			for _, b := range fn.Blocks {
+				for _, in := range b.Instrs {
+					cl, ok := in.(*ssa.Call)
+					if !ok || cl.Call.StaticCallee() == nil || !InModule(cl.Call.StaticCallee()) || cl.Call.StaticCallee().Pkg != fn.Pkg {
+						continue
+					}
+					h := cl.Call.StaticCallee()
+					for i, a := range cl.Call.Args {
+						if !Param("algo")(a) || i >= len(h.Params) || h.Signature.Recv() != nil {
+							continue
+						}
+						if hd, hp := w.FuncDecl("z/x509", h.Name()); hd != nil {
+							if s2 := SwitchesOn(hp, hd.Body, h.Params[i].Name()); len(s2) == 1 && len(sws) == 0 {
+								sws, fd, fp, retStyle = s2, hd, hp, true
+							}
+						}
+					}
+				}
+			}
+		}
+	}
 	if len(sws) != 1 {
 		c.Fail("R-TABLE", "z/x509.CheckSignatureFromKey", "one switch over algo", w.Pos(fd.Pos()), fmt.Sprint(len(sws)))
 		return
@@ -95,6 +121,15 @@ func (c *Ctx) sigTables() {
 			continue
 		}
 		hs := AssignedIn(fp, arm.Body, "hashType")
+		if retStyle {
+			// `return crypto.SHAxxx, nil` selects the hash; `return 0, err` rejects
+			hs = nil
+			if rets := ReturnsIn(arm.Body); len(rets) == 1 && len(rets[0].Results) == 2 {
+				if id, ok := rets[0].Results[1].(*ast.Ident); ok && id.Name == "nil" {
+					hs = []TabVal{evalCell(fp, rets[0].Results[0])}
+				}
+			}
+		}
 		for _, cs := range arm.Cases {
 			switch {
 			case len(hs) == 1 && hs[0].Const != nil:
@@ -206,7 +241,19 @@ func (c *Ctx) checkSigFromKey() {
 	}
 	digestOK := func(v ssa.Value) bool {
 		cl := callOf(v)
-		return cl != nil && nameIn(calleeName(&cl.Call), []string{"z/x509.hash"}) && Param("signed")(cl.Call.Args[1]) && hasAll(Deps(cl.Call.Args[0]), "param:algo") == false
+		if cl == nil || !nameIn(calleeName(&cl.Call), []string{"z/x509.hash"}) || !Param("signed")(cl.Call.Args[1]) {
+			return false
+		}
+		// the hash is chosen per algorithm (constants of the switch, or the result of an in-module helper holding
+		// that switch), never computed from the algorithm number itself
+		h := stripConv(cl.Call.Args[0])
+		if ex, ok := h.(*ssa.Extract); ok {
+			h = ex.Tuple
+		}
+		if hc := callOf(h); hc != nil && hc.Call.StaticCallee() != nil && InModule(hc.Call.StaticCallee()) {
+			return true
+		}
+		return hasAll(Deps(cl.Call.Args[0]), "param:algo") == false
 	}
 	type ver struct {
 		name, keyType string
